@@ -6,7 +6,8 @@
  *            toggles ASAN_OPTIONS=malloc_fill_byte per pass
  *   keys     universe of store keys used for the projection, e.g. [[97],[98]]   ([] = none)
  * step:  expand <env> <input> = <ret> <state>
- *   env    [[name],[value],[name],[value],...]  the complete environment of this call
+ *   env    [[name],[value],[name],[value],...]  the complete environment of this call; the names @N and @V set the
+ *                                               program name / version instead (defaults ap / 1.2)
  *   input  [c,c,...]                            the text (no NUL inside)
  *   ret    {claimed=T|F,outs=[[..],..],trunc=T|F,why=..}    or ?  (record)
  *   state  the store as [[[key],[value]],...] ascending by key, or UNKNOWN
@@ -100,6 +101,7 @@ static __attribute__((noinline)) void dirty_stack(int pat) {
 }
 static __attribute__((noinline)) spif_charptr_t call_expand(spif_charptr_t s, int pat) {
     dirty_stack(pat);
+    errno = (pat == 0xAA) ? ERANGE : EINTR;      /* stale errno of an earlier call must not matter either */
     return spifconf_shell_expand(s);
 }
 
@@ -135,14 +137,22 @@ static const char *run_once(const bl_t *in, int exact, int pat, bl_t *res, int *
 }
 
 static void set_environment(const char *tok, unsigned long *h) {
-    static bl_t e[XR_MAXL]; int n, i;
+    static bl_t e[XR_MAXL]; int n, i, gotn = 0, gotv = 0;
     clearenv();
     n = parse_bls(tok, e, XR_MAXL, NULL);
     for (i = 0; i + 1 < n; i += 2) {
+        /* "@N" / "@V": not environment variables but the program name / version (libast_set_program_name/version),
+         * the other piece of process state the built-ins read */
+        if (e[i].n == 2 && e[i].p[0] == '@' && (e[i].p[1] == 'N' || e[i].p[1] == 'V')) {
+            if (e[i].p[1] == 'N') { libast_set_program_name((char *) e[i + 1].p); gotn = 1; }
+            else { libast_set_program_version((char *) e[i + 1].p); gotv = 1; }
+        } else
         setenv((char *) e[i].p, (char *) e[i + 1].p, 1);
         *h = fnv(fnv(*h, e[i].p, e[i].n + 1), e[i + 1].p, e[i + 1].n + 1);
     }
     if (n > 0) free_bls(e, n);
+    if (!gotn) libast_set_program_name("ap");
+    if (!gotv) libast_set_program_version("1.2");
 }
 
 static int has_random(const unsigned char *p, size_t n) {
